@@ -21,7 +21,41 @@ ENGINES = [
 
 NOT_APPLICABLE = {}
 
+E1_ASSUME = [
+    "inputs outside the enumerated families (longer strings over the class alphabet, byte classes the alphabet does "
+    "not contain, more than the stated number of deviations from canonical shapes) are not covered",
+    "the reference side uses the same binary's standard library, so a toolchain change cannot split the two sides",
+]
+
+
+def e1(pid, pkg, rule, bq, bt, text, note, design, extra_assume=()):
+    return {
+        "engine": "E1 enum", "design_ref": design, "level": "exploration",
+        "technique": "bounded exhaustive input enumeration (all strings/token sequences/deviations up to a bound) "
+                     "against an independent reference model",
+        "level_text": text, "level_note": note, "rule": rule, "bounds_quick": bq, "bounds_thorough": bt,
+        "assumptions": E1_ASSUME + list(extra_assume),
+        "stages": [{"name": "enum", "pkg": pkg}],
+    }
+
+
 CHECKS = {
+    "C02": e1(
+        "C02", "./checks/c02",
+        rule="every string of the enumerated families is evaluated by the validator and by its reference parser "
+             "(netip.ParseAddr, netip.ParseAddrPort, ValidateHostname, ValidateHostnameLabel) in the same binary; "
+             "non-trivial = accepted by at least one side or containing a ':' or '.' separator; distinct = injective "
+             "enumeration for the all-strings family, hash-deduplicated (and disjoint from it) for the others",
+        bq="all strings <=6 over the 15-symbol IP alphabet; field/separator sequences <=4 fields; <=2 token deviations "
+           "from every canonical IPv4/IPv6 shape (0..9 fields x every ellipsis position x IPv4 tail), <=1 deviation x "
+           "zone suffixes x 47 port wrappings; names: all strings <=4 over 15 symbols, <=5 over 10 symbols, boundary "
+           "families around 16/63/253",
+        bt="as quick with strings <=7, sequences <=5 fields, names <=5 / <=6",
+        text="The validators are compared with their reference parsers on every input of a bounded, class-complete "
+             "input space (about 10^7 quick, 2*10^8 thorough), which covers every near-miss of the grammars that a "
+             "handful of table rows cannot.",
+        note="Trusted: net/netip and the Validate* twins as reference; the alphabet is read off the source's byte classes.",
+        design="DESIGN.md 2.1, 3 (C02)"),
     "C17": {
         "engine": "E3 verifsched",
         "design_ref": "DESIGN.md 2.3, 3 (C17)",
